@@ -31,6 +31,10 @@ CHECKS = {
    text="The whole matrix {until, since of PlainDate, PlainTime, PlainDateTime, PlainYearMonth, Instant, ZonedDateTime; round of PlainTime, PlainDateTime, Instant; Duration::round for 4 durations with and without a plain relativeTo; Duration::total; toString options of 5 types; RoundingIncrement construction from u32 and f64} x {largestUnit: absent, auto, 10 units} x {smallestUnit: absent, auto, 10 units} x {29 increments: absent, divisors, non-divisors, unit maxima, 1e9} x {mode: absent + 9}: 1.69M calls. Oracle R9 (GetDifferenceSettings and the round/total/toString option steps): invalid cells must be a RangeError for distinct AND for equal operands (i.e. before computing), valid cells must succeed and give the same result as the fully explicit cell (absent largest = auto = larger of default and smallest; absent increment = 1; absent mode = trunc / halfExpand; since(m) = -until(negate(m))); valid cells whose rounding bracket necessarily leaves the representable range (calendar smallestUnit with increment >= 1e6 years etc.) must be a RangeError.",
    note="Trusted: R9 tables. Cells whose admissibility depends on a rule the property does not name (Duration.round with increment > 1, a date smallestUnit and largestUnit != smallestUnit; calendar units without relativeTo) are executed but unjudged (counted in evidence). Increment set is a covering set, not all 1e9 values.",
    ref="3/C10"),
+ "C13": dict(cat="model_checking", tech="environment enumeration: bounded exhaustive exploration of generated time-zone rule sets (served through the public provider trait) x instants/wall-clock lattices x option products, lock-step against a brute-force zone model",
+   text="All 2879 fixed offsets (+-HH:MM up to 23:59) x 6 instants incl. both range ends: reading, offset string, wall->instant with 4 disambiguations, string round trip. Generated rule sets (342 quick / ~1700 thorough): base offset (-11:00..+13:00, +05:45, an LMT-like -04:56:02) x offset change of 30 min, 1 h, 2 h, 3 h, 3 h 01, 4 h, 12 h, 23 h, 24 h, 25 h in both directions x local time of the transition x second transition (none, 1 h later, 182 days later), served by a harness-owned TimeZoneProvider so that the code under test never reads zone data of its own. Per rule set: the instants at the transition and +-{1 ns, 1 s, 1 h, |change|} and an hourly (quick) / 15-minute (thorough) lattice over +-26 h for instant->fields (9 getters, to_plain_datetime, offset ns and text); the same lattice and the ns edges of every gap/overlap as wall-clock times for PlainDateTime/PlainDate::to_zoned_date_time (4 disambiguations, start of day), ZonedDateTime::from_str and RelativeTo::try_from_str (offset text absent / Z / each offset of the transition / rounded to the minute / wrong by a minute) and from_partial x 4 disambiguations x 4 offset options.",
+   note="Trusted: R6 (brute force over the distinct offsets; gap offsets by the specification's before/after definition). Skipped times that the specification's own algorithm cannot resolve (two transitions closer than the gap) are not judged here (C03 executes them). Real IANA rule sets are exercised under C15 (provider) and end-to-end there. Known findings: the +-3 h probe in gap disambiguation and start-of-day (3 entries) - their region (skipped times in gaps > 3 h, zones with two transitions within 6 h) has no detection power left for other defects.",
+   ref="3/C13"),
  "C17": dict(cat="model_checking", tech="bounded exhaustive product sweep over all subsets of fields x value alphabets x receivers on the real code, lock-step against a field-resolution model",
    text="PlainDate::from_partial / with, PlainDateTime::from_partial / with, PlainTime::from_partial / with / new_with_overflow, ZonedDateTime::from_partial (fixed-offset zones) / with: every combination of {absent or a value} per field - year 8 values incl. the range ends and i32::MIN/MAX, month {0,1,2,12,13,255}, monthCode {M01,M02,M12,M13,M02L,M00,M99}, day {0,1,28..32,255}, hour {0,23,24,255}, minute/second {0,59,60,255}, sub-second {0,999,1000,65535} - x 24 receivers (month ends, leap days, range ends) x {constrain, reject, absent}. Oracle R10: supplied field else receiver's (month and monthCode merge as one field), constrain clamps month to 1..12 and day to the month length of the RESULTING year/month, reject = RangeError, month/monthCode contradiction or a code unknown to the calendar = RangeError, missing required field or empty record = TypeError, result outside the limits = RangeError; identity for every subset of a value's own fields; PlainDateTime::with keeps unsupplied time fields.",
    note="Trusted: R10 (ISO calendar). Unjudged: zero month/day (the ECMAScript layer rejects them before Temporal; the property sentence would clamp). A record that is both incomplete and invalid may raise either TypeError or RangeError. Era fields are exercised in C16. Known finding: ZonedDateTime::with is unimplemented.",
